@@ -402,4 +402,115 @@ theorem print_build_roundtrip (s : SchemaD) (h : printBuildWF s = true) : build 
         · simp only [hn, Bool.false_eq_true, if_false, List.head?_nil, buildRoots, pure, Except.pure]
           rw [defaultRoots_of_implied s (by simpa using hn) hro] }
 
+/-! ### the `schema` block written although every root is implied
+
+With `include_custom_schema_directives` a schema-level directive node makes `print_schema_definition` write the block
+(`not directives and …`) even when re-reading the document would infer the same roots.  The document then names the roots
+explicitly; it builds to the same schema. -/
+
+/-- the printer's document with the `schema` block forced by `b` -/
+def schemaToDocB (s : SchemaD) (b : Bool) : Doc :=
+  (if needsSchemaBlock s || b then [.schema { ops := rootOps s }] else []) ++
+  s.directives.map (fun d => .directive (directiveToDef s d)) ++ s.types.map (fun t => .type (typeToDef s t))
+
+theorem schemaToDocB_false (s : SchemaD) : schemaToDocB s false = schemaToDoc s := by
+  simp [schemaToDocB, schemaToDoc]
+
+private theorem typeDefs_schemaToDocB (s : SchemaD) (b : Bool) : typeDefs (schemaToDocB s b) = s.types.map (typeToDef s) := by
+  simp only [schemaToDocB, typeDefs_append, typeDefs_block, typeDefs_dirs, typeDefs_types, List.nil_append]
+
+private theorem dirDefs_schemaToDocB (s : SchemaD) (b : Bool) : dirDefs (schemaToDocB s b) = s.directives.map (directiveToDef s) := by
+  simp only [schemaToDocB, dirDefs_append, dirDefs_block, dirDefs_dirs, dirDefs_types, List.nil_append, List.append_nil]
+
+private theorem typeExts_schemaToDocB (s : SchemaD) (b : Bool) : typeExts (schemaToDocB s b) = [] := by
+  simp only [schemaToDocB, typeExts_append, typeExts_block, typeExts_dirs, typeExts_types, List.append_nil]
+
+private theorem schemaExtensions_schemaToDocB (s : SchemaD) (b : Bool) : schemaExtensions (schemaToDocB s b) = [] := by
+  simp only [schemaToDocB, schemaExtensions_append, schemaExtensions_block, schemaExtensions_dirs, schemaExtensions_types, List.append_nil]
+
+private theorem schemaDefs_schemaToDocB (s : SchemaD) (b : Bool) :
+    schemaDefs (schemaToDocB s b) = if needsSchemaBlock s || b then [{ ops := rootOps s }] else [] := by
+  simp only [schemaToDocB, schemaDefs_append, schemaDefs_block, schemaDefs_dirs, schemaDefs_types, List.append_nil]
+
+theorem declared_schemaToDocB (s : SchemaD) (b : Bool) (h : printBuildWF s = true) : Declared (schemaToDocB s b) = some s := by
+  simp only [printBuildWF, Bool.and_eq_true, List.all_eq_true, Bool.not_eq_true'] at h
+  obtain ⟨⟨⟨⟨⟨⟨⟨hty, hdi⟩, _⟩, _⟩, hro⟩, _⟩, _⟩, hres⟩ := h
+  have hmerged : merged (schemaToDocB s b) = s.types.map (typeToDef s) := by
+    rw [merged_noext _ (typeExts_schemaToDocB s b), typeDefs_schemaToDocB]
+  have htypes : (s.types.map (typeToDef s)).mapM (buildTypeDef (docEnv s)) = .ok s.types :=
+    mapM_to_doc _ _ _ (fun t ht => type_to_doc_build s t (hty t ht))
+  have hdirs : (s.directives.map (directiveToDef s)).mapM (buildDirective (docEnv s)) = .ok s.directives :=
+    mapM_to_doc _ _ _ (fun d hd => directive_to_doc_build s d (hdi d hd))
+  have hroots : declaredRoots (schemaToDocB s b) s.types = ⟨s.query, s.mutation, s.subscription⟩ := by
+    simp only [declaredRoots, schemaExtensions_schemaToDocB, schemaDefs_schemaToDocB, List.foldl_nil]
+    by_cases hn : (needsSchemaBlock s || b) = true
+    · simp only [hn, if_true]
+      cases hq : s.query <;> cases hm : s.mutation <;> cases hs : s.subscription <;> simp [rootOps, hq, hm, hs, Roots.set]
+    · simp only [hn, Bool.false_eq_true, if_false]
+      have hn' : needsSchemaBlock s = false := by
+        cases hh : needsSchemaBlock s with
+        | false => rfl
+        | true => simp [hh] at hn
+      exact defaultRoots_of_implied s hn' hro
+  unfold Declared
+  simp only [hmerged, dirDefs_schemaToDocB]
+  have e : Env.of (s.types.map (typeToDef s)) = docEnv s := rfl
+  rw [e, htypes, hdirs]
+  simp only [hroots]
+  have e1 : s.defaultResolver = none := by simpa using hres
+  cases s
+  simp only [] at e1
+  subst e1
+  rfl
+
+/-- **print_build_roundtrip_block** — `print_build_roundtrip` for the document with a `schema` block that the printer
+    writes only because of a schema-level directive node: naming the implied roots explicitly builds the same schema. -/
+theorem print_build_roundtrip_block (s : SchemaD) (b : Bool) (h : printBuildWF s = true) : build (schemaToDocB s b) = .ok s := by
+  have hdecl := declared_schemaToDocB s b h
+  simp only [printBuildWF, Bool.and_eq_true, List.all_eq_true, Bool.not_eq_true'] at h
+  obtain ⟨⟨⟨⟨⟨⟨⟨hty, hdi⟩, hut⟩, hud⟩, hro⟩, hth⟩, hea⟩, hres⟩ := h
+  have htd := typeDefs_schemaToDocB s b
+  apply build_exact_noext
+  exact
+    { uniqueTypes := by
+        rw [htd, List.map_map]; exact (hasDup_false_iff _).mp hut
+      uniqueDirectives := by
+        rw [dirDefs_schemaToDocB, List.map_map]; exact (hasDup_false_iff _).mp hud
+      oneSchema := by rw [schemaDefs_schemaToDocB]; split <;> simp
+      noBuiltinNames := by
+        intro t ht
+        rw [htd] at ht
+        obtain ⟨t0, ht0, rfl⟩ := List.mem_map.mp ht
+        have := hty t0 ht0
+        simp only [typeOK, Bool.and_eq_true, Bool.not_eq_true'] at this
+        exact this.2
+      noTypeExt := typeExts_schemaToDocB s b
+      noSchemaExt := schemaExtensions_schemaToDocB s b
+      declares := hdecl
+      noThunkCycle := by rw [htd]; exact hth
+      noEagerCycle := hea
+      noSpecified := by
+        rw [List.any_eq_false]
+        intro d hd
+        have := hdi d hd
+        simp only [directiveOK, Bool.and_eq_true, Bool.not_eq_true'] at this
+        rw [this.2]; simp
+      rootsOk := by
+        rw [htd, schemaDefs_schemaToDocB]
+        have hro' := hro
+        simp only [rootsOK, Bool.and_eq_true] at hro'
+        by_cases hn : (needsSchemaBlock s || b) = true
+        · simp only [hn, if_true, List.head?_cons, buildRoots]
+          have e : Env.of (s.types.map (typeToDef s)) = docEnv s := rfl
+          rw [e]
+          exact roots_addOps s _ (fun q e => by have := hro'.1.1; rw [e] at this; exact root_resolves s q this)
+            (fun q e => by have := hro'.1.2; rw [e] at this; exact root_resolves s q this)
+            (fun q e => by have := hro'.2; rw [e] at this; exact root_resolves s q this)
+        · simp only [hn, Bool.false_eq_true, if_false, List.head?_nil, buildRoots, pure, Except.pure]
+          have hn' : needsSchemaBlock s = false := by
+            cases hh : needsSchemaBlock s with
+            | false => rfl
+            | true => simp [hh] at hn
+          rw [defaultRoots_of_implied s hn' hro] }
+
 end PyGql.Props.C12
